@@ -24,14 +24,14 @@ def bounds(ctx):
     q = ctx.quick
     models = [
         ("StepCtl[C12 windows 1,2]",
-         dict(Adaptives=[True, False], Windows=[1, 2], RetrySet=[0, 2], MulExps=[1, 2], InitEs=[4], MaxE4s=[5], Deltas=D4,
-              MaxSteps=6 if q else 7, MaxRefusals=4 if q else 5), sc.INV_C12, sc.PROP_C12, ACTIONS),
+         dict(Adaptives=[True, False], Windows=[1, 2], RetrySet=[0, 2] if q else [0, 1, 3], MulExps=[1, 2], InitEs=[4], MaxE4s=[5],
+              Deltas=D4, MaxSteps=6 if q else 8, MaxRefusals=4 if q else 5), sc.INV_C12, sc.PROP_C12, ACTIONS),
         ("StepCtl[C12 window 4]",
          dict(Adaptives=[True], Windows=[4], RetrySet=[1] if q else [1, 3], MulExps=[1], InitEs=[4], MaxE4s=[5],
-              Deltas=[0, 1024] if q else [0, 1024, 16384], MaxSteps=8, MaxRefusals=2 if q else 3), sc.INV_C12, sc.PROP_C12, ACTIONS),
+              Deltas=[0, 1024] if q else D4, MaxSteps=8 if q else 9, MaxRefusals=2 if q else 3), sc.INV_C12, sc.PROP_C12, ACTIONS),
         ("StepCtl[C12 dt_init 2^-6, dt_max 2]",
-         dict(Adaptives=[True], Windows=[1, 2], RetrySet=[1, 3], MulExps=[2], InitEs=[6], MaxE4s=[3], Deltas=D4,
-              MaxSteps=6 if q else 7, MaxRefusals=4), sc.INV_C12, sc.PROP_C12, ACTIONS),
+         dict(Adaptives=[True], Windows=[1, 2], RetrySet=[1, 3], MulExps=[2] if q else [1, 2], InitEs=[6], MaxE4s=[3] if q else [3, 1],
+              Deltas=D4, MaxSteps=6 if q else 8, MaxRefusals=4), sc.INV_C12, sc.PROP_C12, ACTIONS),
         ("StepCtl[C12 with screening iterations]",
          dict(Adaptives=[True, False], Screenings=[True], Windows=[1], RetrySet=[1], MulExps=[1], Deltas=[0, 1024],
               MaxIters=[1, 2], Kicks=[1, 3], MaxSteps=3, MaxRefusals=2 if q else 3), sc.INV_C12 + sc.INV_C13,
@@ -42,8 +42,8 @@ def bounds(ctx):
                 ("MWarmupRule", small, "TentativeFollowsWindowRule"), ("MNeverRaise", small, "RetriesExhaustedRaises"),
                 ("MNeverRaise", small, "RetriesBounded"), ("MMulFirst", small, "ReturnedDtIsAnswered")]
     exports = [
-        ("window 1", dict(Adaptives=[True], Windows=[1], RetrySet=[0, 1], MulExps=[1, 2], Deltas=D4, MaxSteps=4,
-                          MaxRefusals=2 if q else 3)),
+        ("window 1", dict(Adaptives=[True], Windows=[1], RetrySet=[0, 1], MulExps=[1, 2], Deltas=D4, MaxSteps=4 if q else 5,
+                          MaxRefusals=2)),
         ("window 2", dict(Adaptives=[True], Windows=[2], RetrySet=[1], MulExps=[2], InitEs=[6], MaxE4s=[3],
                           Deltas=[0, 1024, 16384] if q else D4, MaxSteps=5, MaxRefusals=2 if q else 3)),
         ("window 4", dict(Adaptives=[True], Windows=[4], RetrySet=[1], MulExps=[1], Deltas=[0, 1024], MaxSteps=7,
@@ -102,7 +102,7 @@ def run(ctx):
     # 2. spec -> code
     fams = sc.export_many(ctx, exports)
     rnd = random.Random(ctx.seed)
-    per = 450 if ctx.quick else 6000
+    per = 450 if ctx.quick else 25000
     scripts = []
     exhaustive = True
     for fam in fams:
